@@ -328,7 +328,7 @@ class Check:
         self.pid, self.tier, self.seed = pid, tier, seed
         self.t0 = time.time()
         self.work = os.path.join(WORK, pid)
-        sh(["rm", "-rf", self.work])
+        sh(["rm", "-rf", self.work, os.path.join(WORK, "replay", pid)])
         os.makedirs(self.work, exist_ok=True)
         self.coverage = {}
         self.assumptions = []
